@@ -146,7 +146,7 @@ theorem parseSplit_transfer (env : Env) (nl p0 q0 p q : Str) (P0 : Parsed)
   obtain ⟨_, hhost, hu1, hu2, _, ⟨port?, hport, hpe⟩, _, _, _⟩ := parseSplit_inv env _ P0 h0
   simp only at hhost hu1 hu2 hport
   refine ⟨⟨P0.host, P0.port, if p.isEmpty then ['/'] else p, q,
-    unsplit gemini (if P0.port ≠ 1965 then rebracket P0.host ++ [':'] ++ natToStr P0.port else rebracket P0.host)
+    unsplit gemini (if P0.port ≠ 1965 then rebracket nl P0.host ++ [':'] ++ natToStr P0.port else rebracket nl P0.host)
       (if p.isEmpty then ['/'] else p) q []⟩, ?_, rfl, rfl, rfl, rfl⟩
   unfold parseSplit
   have hg : (gemini.isEmpty) = false := rfl
